@@ -238,3 +238,195 @@ Proof.
   intros Hn H. apply ws_continues in H. subst evs. rewrite map_app. cbn [map]. f_equal. f_equal.
   unfold ws_expected. destruct (N.leb_spec n (max_request c)); [lia | reflexivity].
 Qed.
+
+(* ---------- the rejection under back-pressure: pipelined messages, bounded outgoing queue ---------- *)
+From Coq Require Import Sorting.Permutation.
+
+Definition preply_eq_dec : forall a b : preply, {a = b} + {a <> b}.
+Proof. decide equality; apply N.eq_dec. Defined.
+
+Definition opt_list {A : Type} (o : option A) : list A := match o with Some x => [x] | None => [] end.
+
+(* everything that is owed at some moment: on the wire, in the channel, parked, being computed, or still unread *)
+Definition conn_bag (limit reported : N) (k : conn) : list preply :=
+  k_wire k ++ k_queue k ++ k_waiting k ++ k_running k ++ opt_list (k_parked k)
+  ++ map (pipeline_outcome limit reported) (k_inbox k).
+
+Lemma step_preserves_bag limit reported cap k k' :
+  conn_step limit reported cap k k' -> Permutation (conn_bag limit reported k) (conn_bag limit reported k').
+Proof.
+  intro H. apply (Permutation_count_occ preply_eq_dec). intro x.
+  destruct H; unfold conn_bag;
+    cbn [k_inbox k_parked k_running k_waiting k_queue k_wire opt_list map];
+    try (unfold pipeline_outcome at 1; rewrite H);
+    repeat (rewrite !count_occ_app || cbn [count_occ app]);
+    repeat match goal with |- context [preply_eq_dec ?a ?b] => destruct (preply_eq_dec a b) end; lia.
+Qed.
+
+Lemma steps_preserve_bag limit reported cap k k' :
+  conn_steps limit reported cap k k' -> Permutation (conn_bag limit reported k) (conn_bag limit reported k').
+Proof.
+  induction 1 as [k | k1 k2 k3 H1 _ IH]; [apply Permutation_refl|].
+  eapply Permutation_trans; [eapply step_preserves_bag; eassumption | exact IH].
+Qed.
+
+Lemma conn_idle_iff k :
+  conn_idle k = true <-> k_inbox k = [] /\ k_parked k = None /\ k_running k = [] /\ k_waiting k = [] /\ k_queue k = [].
+Proof.
+  destruct k as [inbox p run wait q w]. unfold conn_idle. cbn.
+  destruct inbox, p, run, wait, q; split; intro H; try discriminate; try (repeat split; reflexivity);
+    destruct H as (H1 & H2 & H3 & H4 & H5); discriminate.
+Qed.
+
+Lemma room_in_empty cap : 1 <= cap -> queue_has_room cap [] = true.
+Proof. intro H. unfold queue_has_room. cbn. apply N.ltb_lt. lia. Qed.
+
+(* with a channel of capacity >= 1, something can always move unless nothing is pending *)
+Lemma progress limit reported cap k :
+  1 <= cap -> (exists k', conn_step limit reported cap k k') \/ conn_idle k = true.
+Proof.
+  intro Hcap. pose proof (room_in_empty cap Hcap) as Hroom.
+  destruct k as [inbox p run wait q w].
+  destruct q as [|r q]; [|left; eexists; apply StWrite].
+  destruct p as [r|]; [left; eexists; apply StLoopEnqueue; exact Hroom|].
+  destruct wait as [|r wait]; [|left; eexists; exact (StTaskEnqueue limit reported cap r inbox None run [] wait [] w Hroom)].
+  destruct run as [|r run]; [|left; eexists; exact (StTaskReady limit reported cap r inbox None [] run [] [] w)].
+  destruct inbox as [|m inbox]; [right; reflexivity|].
+  left. destruct (soketto_accepts limit (pm_size m)) eqn:E; eexists; [apply StRecvOk | apply StRecvTooBig]; exact E.
+Qed.
+
+Lemma stuck_is_idle limit reported cap k : 1 <= cap -> conn_stuck limit reported cap k -> conn_idle k = true.
+Proof.
+  intros Hcap Hs. destruct (progress limit reported cap k Hcap) as [[k' Hk'] | Hi]; [|exact Hi].
+  exfalso. exact (Hs k' Hk').
+Qed.
+
+Lemma idle_bag limit reported k : conn_idle k = true -> conn_bag limit reported k = k_wire k.
+Proof.
+  intro H. apply conn_idle_iff in H. destruct H as (H1 & H2 & H3 & H4 & H5).
+  unfold conn_bag. rewrite H1, H2, H3, H4, H5. cbn. apply app_nil_r.
+Qed.
+
+Lemma init_bag limit reported msgs : conn_bag limit reported (conn_init msgs) = map (pipeline_outcome limit reported) msgs.
+Proof. reflexivity. Qed.
+
+Lemma pipeline_outcome_wired e c l :
+  ws_limit_of e c = Some l ->
+  forall msgs, map (pipeline_outcome l (ws_reported_limit c)) msgs = ws_pipeline_replies c msgs.
+Proof.
+  intros E msgs. apply ws_wiring in E. subst l.
+  generalize (ws_reported_wiring c). generalize (ws_reported_limit c). intros r ->. reflexivity.
+Qed.
+
+(* whatever the capacity and the interleaving: once nothing can move, the wire carries exactly the per-message outcomes *)
+Lemma pipeline_each_answered :
+  forall e c l cap msgs k,
+    ws_limit_of e c = Some l -> 1 <= cap ->
+    conn_steps l (ws_reported_limit c) cap (conn_init msgs) k ->
+    conn_stuck l (ws_reported_limit c) cap k ->
+    Permutation (k_wire k) (ws_pipeline_replies c msgs).
+Proof.
+  intros e c l cap msgs k E Hcap Hsteps Hstuck.
+  apply steps_preserve_bag in Hsteps. rewrite init_bag, (pipeline_outcome_wired e c l E) in Hsteps.
+  rewrite (idle_bag _ _ k (stuck_is_idle _ _ _ k Hcap Hstuck)) in Hsteps. apply Permutation_sym. exact Hsteps.
+Qed.
+
+(* ... and before that, something can still move (no deadlock) and the wire holds nothing but owed replies, each at most
+   as often as it is owed *)
+Lemma pipeline_delays_only :
+  forall e c l cap msgs k,
+    ws_limit_of e c = Some l -> 1 <= cap ->
+    conn_steps l (ws_reported_limit c) cap (conn_init msgs) k ->
+    (exists rest, Permutation (k_wire k ++ rest) (ws_pipeline_replies c msgs)) /\
+    ((exists k', conn_step l (ws_reported_limit c) cap k k') \/ Permutation (k_wire k) (ws_pipeline_replies c msgs)).
+Proof.
+  intros e c l cap msgs k E Hcap Hsteps.
+  apply steps_preserve_bag in Hsteps. rewrite init_bag, (pipeline_outcome_wired e c l E) in Hsteps. split.
+  - eexists. apply Permutation_sym. exact Hsteps.
+  - destruct (progress l (ws_reported_limit c) cap k Hcap) as [Hs | Hi]; [left; exact Hs | right].
+    rewrite (idle_bag _ _ k Hi) in Hsteps. apply Permutation_sym. exact Hsteps.
+Qed.
+
+(* counted: one rejection per oversized message, one answer per in-limit message *)
+Lemma outcome_counts limit msgs :
+  count_occ preply_eq_dec (map (pipeline_outcome limit limit) msgs) (PRejected limit)
+    = length (filter (fun m => limit <? pm_size m) msgs) /\
+  forall id, count_occ preply_eq_dec (map (pipeline_outcome limit limit) msgs) (PAnswered id)
+    = length (filter (fun m => (pm_size m <=? limit) && (pm_id m =? id)) msgs).
+Proof.
+  split; [|intro id]; induction msgs as [|m msgs IH]; try reflexivity;
+    cbn [map filter]; unfold pipeline_outcome at 1, soketto_accepts; rewrite ?N.leb_antisym;
+    destruct (limit <? pm_size m) eqn:Hlt; cbn [negb andb].
+  - rewrite count_occ_cons_eq by reflexivity. cbn [length]. rewrite IH. reflexivity.
+  - rewrite count_occ_cons_neq by discriminate. exact IH.
+  - rewrite count_occ_cons_neq by discriminate. exact IH.
+  - destruct (N.eqb_spec (pm_id m) id) as [Heq | Hne].
+    + rewrite count_occ_cons_eq by (rewrite Heq; reflexivity). cbn [length]. rewrite IH. reflexivity.
+    + rewrite count_occ_cons_neq by (intro Heq; inversion Heq; congruence). exact IH.
+Qed.
+
+Lemma pipeline_counts :
+  forall e c l cap msgs k,
+    ws_limit_of e c = Some l -> 1 <= cap ->
+    conn_steps l (ws_reported_limit c) cap (conn_init msgs) k ->
+    conn_stuck l (ws_reported_limit c) cap k ->
+    count_occ preply_eq_dec (k_wire k) (PRejected (max_request c)) = length (filter (fun m => max_request c <? pm_size m) msgs) /\
+    (forall id, count_occ preply_eq_dec (k_wire k) (PAnswered id)
+                = length (filter (fun m => (pm_size m <=? max_request c) && (pm_id m =? id)) msgs)) /\
+    (forall r, r <> max_request c -> count_occ preply_eq_dec (k_wire k) (PRejected r) = 0%nat).
+Proof.
+  intros e c l cap msgs k E Hcap Hsteps Hstuck.
+  pose proof (pipeline_each_answered e c l cap msgs k E Hcap Hsteps Hstuck) as HP.
+  pose proof (proj1 (Permutation_count_occ preply_eq_dec _ _) HP) as HC.
+  destruct (outcome_counts (max_request c) msgs) as [H1 H2]. repeat split.
+  - rewrite HC. exact H1.
+  - intro id. rewrite HC. apply H2.
+  - intros r Hr. rewrite HC. apply count_occ_not_In. unfold ws_pipeline_replies. intro Hin.
+    apply in_map_iff in Hin. destruct Hin as [m [Hm _]]. unfold pipeline_outcome in Hm.
+    destruct (soketto_accepts (max_request c) (pm_size m)); inversion Hm. congruence.
+Qed.
+
+(* the executable schedule only takes steps of the system *)
+Lemma conn_next_step limit reported cap k k' :
+  conn_next limit reported cap k = Some k' -> conn_step limit reported cap k k'.
+Proof.
+  destruct k as [inbox p run wait q w]. unfold conn_next.
+  cbn [k_inbox k_parked k_running k_waiting k_queue k_wire].
+  assert (Hwrite : forall k1,
+             match q with
+             | r :: q0 => Some {| k_inbox := inbox; k_parked := p; k_running := run; k_waiting := wait; k_queue := q0; k_wire := w ++ [r] |}
+             | [] => None
+             end = Some k1 ->
+             conn_step limit reported cap {| k_inbox := inbox; k_parked := p; k_running := run; k_waiting := wait; k_queue := q; k_wire := w |} k1).
+  { intros k1 H. destruct q as [|r q0]; [discriminate|]. inversion H. apply StWrite. }
+  destruct p as [r0|]; destruct inbox as [|m inbox]; destruct run as [|r run];
+    try (destruct (soketto_accepts limit (pm_size m)) eqn:E; intro H; inversion H; subst; [apply StRecvOk | apply StRecvTooBig]; exact E);
+    try (intro H; inversion H; subst;
+         match goal with |- conn_step _ _ _ {| k_inbox := ?i; k_parked := ?pp; k_running := ?r1 :: ?rn; k_waiting := ?wt; k_queue := ?qq; k_wire := ?ww |} _ =>
+           exact (StTaskReady limit reported cap r1 i pp [] rn wt qq ww) end);
+    (destruct (queue_has_room cap q) eqn:R; [|apply Hwrite]);
+    (destruct wait as [|r1 wait];
+     [ try apply Hwrite; intro H; inversion H; subst; apply StLoopEnqueue; exact R
+     | intro H; inversion H; subst;
+       match goal with |- conn_step _ _ _ {| k_inbox := ?i; k_parked := ?pp; k_running := ?rn; k_waiting := _; k_queue := ?qq; k_wire := ?ww |} _ =>
+         exact (StTaskEnqueue limit reported cap r1 i pp rn [] wait qq ww R) end ]).
+Qed.
+
+Lemma conn_run_steps limit reported cap fuel : forall k, conn_steps limit reported cap k (conn_run limit reported cap fuel k).
+Proof.
+  induction fuel as [|f IH]; intro k; cbn [conn_run]; [apply StepsRefl|].
+  destruct (conn_next limit reported cap k) as [k'|] eqn:E; [|apply StepsRefl].
+  eapply StepsCons; [apply conn_next_step; exact E | apply IH].
+Qed.
+
+(* what the model runner prints for a session that came to rest is the per-message outcome list, whatever `cap` is *)
+Lemma pipeline_session_spec :
+  forall e c cap msgs wire parked,
+    ws_pipeline_session e c cap msgs = Some (wire, true, parked) -> Permutation wire (ws_pipeline_replies c msgs).
+Proof.
+  intros e c cap msgs wire parked. unfold ws_pipeline_session.
+  destruct (ws_limit_of e c) as [l|] eqn:E; [|discriminate]. intro H. inversion H as [[Hw Hi Hp]]. clear H Hp.
+  pose proof (conn_run_steps l (ws_reported_limit c) cap (4 * length msgs + 4) (conn_init msgs)) as Hsteps.
+  apply steps_preserve_bag in Hsteps. rewrite init_bag, (pipeline_outcome_wired e c l E), (idle_bag _ _ _ Hi) in Hsteps.
+  apply Permutation_sym. exact Hsteps.
+Qed.
